@@ -113,6 +113,14 @@ func checkConfigCompatibility(
 		}
 	}
 	{
+		// input parsers keep the record allocator created at startup, whose reference count per record is the number of outputs
+		oldNum := len(oldConf.OutputBuffersPairs)
+		newNum := len(newConf.OutputBuffersPairs)
+		if oldNum != newNum {
+			return fmt.Errorf("outputBufferPairs: number of outputs must not change: old=%d, new=%d", oldNum, newNum)
+		}
+	}
+	{
 		oldKeys := oldStats.OrchestrationKeys
 		newKeys := newStats.OrchestrationKeys
 		if !slices.Equal(oldKeys, newKeys) {
